@@ -82,9 +82,13 @@ theorem statuses_decode_eq (msg : List UInt8) (off : Nat) (data : V) (hd : dataO
   have i1 : Py.index (.bytes msg) (.int ((off : Int) + 1)) = idxAt (msg.drop off) 1 := ix 1
   have i2 : Py.index (.bytes msg) (.int ((off : Int) + 2)) = idxAt (msg.drop off) 2 := ix 2
   have i3 : Py.index (.bytes msg) (.int ((off : Int) + 3)) = idxAt (msg.drop off) 3 := ix 3
+  -- the same with the operands of the sum the other way round (`index + offset`)
+  have j1 : Py.index (.bytes msg) (.int (1 + (off : Int))) = idxAt (msg.drop off) 1 := by rw [Int.add_comm]; exact i1
+  have j2 : Py.index (.bytes msg) (.int (2 + (off : Int))) = idxAt (msg.drop off) 2 := by rw [Int.add_comm]; exact i2
+  have j3 : Py.index (.bytes msg) (.int (3 + (off : Int))) = idxAt (msg.drop off) 3 := by rw [Int.add_comm]; exact i3
   simp only [PyCode.c_STATUSES, Py.enumerate, Py.iter, pure_eq_ok, ok_bind, enumFrom, Py.listComp, List.foldlM_cons, List.foldlM_nil,
     Py.unpack2, Py.unpackN, List.length_cons, List.length_nil, if_true, bind_ok, add_int', h4, ← Int.natCast_add, Int.natCast_zero,
-    Int.add_zero, Nat.zero_add, Nat.reduceAdd, Int.cast_ofNat_Int, i0, i1, i2, i3]
+    Int.add_zero, Int.zero_add, Nat.zero_add, Nat.reduceAdd, Int.cast_ofNat_Int, i0, i1, i2, i3, j1, j2, j3]
   simp only [decStatuses, Gen.statusesNames, List.zipIdx, statusAt, Option.bind_eq_bind]
   generalize msg.drop off = d
   match d with
